@@ -25,12 +25,14 @@ func c11Legs(tier, o string) []pairLeg {
 		add("K", thin(Keyed(2, false), 600))
 		add("E3", EditStates(3, 3000))
 		add("hostile", HostileDocs())
+		add("deep", Deep(true))
 	} else {
 		add("U4", U(4))
 		add("U3perm", UPerm(3))
 		add("K", thin(Keyed(2, false), 150))
 		add("E2", EditStates(2, 500))
 		add("hostile", thin(HostileDocs(), 150))
+		add("deep", Deep(true))
 	}
 	return legs
 }
